@@ -315,9 +315,245 @@ def topn_len(tree) -> str:
     return text
 
 
+# ---- pipeline/common.py: which node feeds which parameter of which component ---------------------
+
+W_NAMES = {"query": "Nquery", "items": "Nitems", "n": "Nn", "history-lookup": "Nlookup", "candidate-selector": "Ncandsel",
+           "candidates": "Ncandidates", "scorer": "Nscorer", "fallback-predictor": "Nfallback", "rating-merger": "Nmerger",
+           "ranker": "Nranker", "recommender": "Nrecommender", "rating-predictor": "Npredictor"}
+W_PARAMS = {"query": "Pquery", "items": "Pitems", "n": "Pn", "primary": "Pprimary", "backup": "Pbackup"}
+W_IMPORTS = {"FallbackScorer": "lenskit.basic.composite", "UserTrainingHistoryLookup": "lenskit.basic.history",
+             "BiasScorer": "lenskit.basic.bias", "UnratedTrainingItemsCandidateSelector": "lenskit.basic.candidates",
+             "TopNRanker": "lenskit.basic.topn"}
+W_HEADER = """(* GENERATED on every run by harness/translate/c03.py from
+   src/lenskit/pipeline/common.py (RecPipelineBuilder.build, predict_pipeline; the bodies of
+   RecPipelineBuilder.__init__ / scorer / ranker / predicts_ratings and of topn_pipeline are matched
+   textually) -- do not edit. *)
+From Coq Require Import List.
+From LK Require Import Model.C03_graph.
+Import ListNotations.
+
+"""
+# the thin parts around build(): what the builder's attributes are, and how topn_pipeline drives the builder
+W_FIXED = {
+    ("RecPipelineBuilder", "__init__"): [
+        "from lenskit.basic.candidates import UnratedTrainingItemsCandidateSelector", "from lenskit.basic.topn import TopNRanker",
+        "self._selector = UnratedTrainingItemsCandidateSelector()", "self._ranker = TopNRanker()"],
+    ("RecPipelineBuilder", "scorer"): ["self._scorer = score"],
+    ("RecPipelineBuilder", "ranker"): [
+        "from lenskit.basic.topn import TopNRanker",
+        "if rank is None:\n    self._ranker = TopNRanker(n=n)\nelse:\n    self._ranker = rank"],
+    ("RecPipelineBuilder", "predicts_ratings"): [
+        "self.is_predictor = True", "self._predict_transform = transform", "self._fallback = fallback"],
+    (None, "topn_pipeline"): [
+        "from lenskit.basic.bias import BiasScorer", "builder = RecPipelineBuilder()", "builder.scorer(scorer)", "builder.ranker(n=n)",
+        "if predicts_ratings == 'raw':\n    builder.predicts_ratings()\nelif predicts_ratings:\n    builder.predicts_ratings(fallback=BiasScorer())",
+        "return builder.build(name)"],
+}
+W_CLASS_DEFAULTS = ["is_predictor: bool = False", "_predict_transform: Component | None = None", "_fallback: Component | None = None"]
+
+
+class WireExec:
+    """Runs the body of a pipeline-assembling function on an abstract builder: `conds` gives the truth value of every
+    condition the body may test (anything else fails closed); `comps` maps the source text of a component expression
+    to the Gallina constructor.  Result: the node list in assembly order, aliases and the default node."""
+
+    def __init__(self, conds: dict[str, bool], comps: dict[str, str], assigns: dict[str, dict] | None = None):
+        self.conds = dict(conds)
+        self.comps = dict(comps)
+        self.assigns = assigns or {}        # allowed re-bindings of a python variable: source text -> changes of conds / comps
+        self.builder = None
+        self.env: dict[str, str] = {}       # python variable -> node name (python string)
+        self.nodes: list[str] = []
+        self.names: list[str] = []
+        self.default = None
+        self.done = False
+
+    def nm(self, node, a) -> str:
+        if not (isinstance(a, ast.Constant) and isinstance(a.value, str)):
+            fail(node, "node name is not a string literal")
+        if a.value not in W_NAMES:
+            fail(node, f"node name {a.value!r} is not one the model of the standard pipelines knows")
+        return a.value
+
+    def src(self, node, a) -> str:
+        if not (isinstance(a, ast.Name) and a.id in self.env):
+            fail(node, "a connection is not a variable bound to a node of this pipeline")
+        return W_NAMES[self.env[a.id]]
+
+    def declare(self, node, name, text):
+        if name in self.names:
+            fail(node, f"node {name} is defined twice")
+        self.names.append(name)
+        self.nodes.append(text)
+
+    def call(self, s, call: ast.Call, target: str | None):
+        d = dotted(call.func)
+        if self.builder is None or d is None or not d.startswith(self.builder + "."):
+            fail(s, "call outside the pipeline builder")
+        meth = d[len(self.builder) + 1:]
+        if any(isinstance(a, ast.Starred) for a in call.args) or any(k.arg is None for k in call.keywords):
+            fail(s, "starred arguments")
+        if meth == "create_input":
+            name = self.nm(s, call.args[0]) if call.args else fail(s, "create_input without a name")
+            if call.keywords:
+                fail(s, "create_input with keywords")
+            self.declare(s, name, f"WInput {W_NAMES[name]}")
+        elif meth == "add_component":
+            if len(call.args) != 2:
+                fail(s, "add_component is not (name, component, **connections)")
+            name = self.nm(s, call.args[0])
+            ctext = ast.unparse(call.args[1])
+            if ctext not in self.comps:
+                fail(s, f"component expression {ctext} is not one the model knows here")
+            edges = []
+            for k in call.keywords:
+                if k.arg not in W_PARAMS:
+                    fail(s, f"parameter {k.arg} is not one the model knows")
+                edges.append(f"({W_PARAMS[k.arg]}, {self.src(s, k.value)})")
+            self.declare(s, name, f"WComp {W_NAMES[name]} {self.comps[ctext]} [{'; '.join(edges)}]")
+        elif meth == "use_first_of":
+            if len(call.args) != 3 or call.keywords:
+                fail(s, "use_first_of is not (name, primary, fallback)")
+            name = self.nm(s, call.args[0])
+            self.declare(s, name, f"WFirst {W_NAMES[name]} {self.src(s, call.args[1])} {self.src(s, call.args[2])}")
+        elif meth == "alias":
+            if len(call.args) != 2 or call.keywords:
+                fail(s, "alias is not (name, node)")
+            name = self.nm(s, call.args[0])
+            self.declare(s, name, f"WAlias {W_NAMES[name]} {self.src(s, call.args[1])}")
+            if target is not None:
+                fail(s, "result of alias() is bound")
+            return
+        elif meth == "default_component":
+            if len(call.args) != 1 or call.keywords or target is not None:
+                fail(s, "default_component is not (name)")
+            self.default = self.nm(s, call.args[0])
+            return
+        else:
+            fail(s, f"builder method {meth} outside the whitelist")
+        if target is not None:
+            self.env[target] = name
+
+    def run(self, stmts):
+        for s in stmts:
+            if self.done:
+                fail(s, "statement after the return")
+            if isinstance(s, ast.ImportFrom):
+                for a in s.names:
+                    if a.asname is not None or W_IMPORTS.get(a.name) != s.module or s.level:
+                        fail(s, "import outside the whitelist")
+            elif isinstance(s, ast.Assign) and len(s.targets) == 1 and isinstance(s.targets[0], ast.Name):
+                t, v = s.targets[0].id, s.value
+                text = ast.unparse(s)
+                if text in self.assigns:
+                    self.conds.update(self.assigns[text].get("conds", {}))
+                    self.comps.update(self.assigns[text].get("comps", {}))
+                elif isinstance(v, ast.Call) and dotted(v.func) == "PipelineBuilder" and self.builder is None:
+                    if ast.unparse(v) != "PipelineBuilder(name=name)":
+                        fail(s, "PipelineBuilder is not created as PipelineBuilder(name=name)")
+                    self.builder = t
+                elif isinstance(v, ast.Name) and v.id in self.env and t != self.builder:
+                    self.env[t] = self.env[v.id]
+                elif isinstance(v, ast.Call):
+                    if t == self.builder or t in self.conds_vars():
+                        fail(s, "a variable the conditions read is re-bound")
+                    self.call(s, v, t)
+                else:
+                    fail(s, "assignment outside the whitelist")
+            elif isinstance(s, ast.Expr) and isinstance(s.value, ast.Call):
+                self.call(s, s.value, None)
+            elif isinstance(s, ast.If):
+                c = ast.unparse(s.test)
+                if c not in self.conds:
+                    fail(s, f"condition `{c}` is not one the model knows")
+                self.run(s.body if self.conds[c] else s.orelse)
+            elif isinstance(s, ast.Return):
+                if self.builder is None or s.value is None or ast.unparse(s.value) != f"{self.builder}.build()":
+                    fail(s, "does not return <builder>.build()")
+                self.done = True
+            else:
+                fail(s, "statement outside the whitelist")
+
+    def conds_vars(self):
+        out = set()
+        for c in self.conds:
+            out.update(n.id for n in ast.walk(ast.parse(c)) if isinstance(n, ast.Name))
+        return out - {"self"}
+
+    def gallina(self) -> str:
+        if not self.done:
+            raise TranslateError("pipeline assembly does not end in a return")
+        for n in self.nodes:
+            pass
+        d = "None" if self.default is None else f"(Some {W_NAMES[self.default]})"
+        body = ";\n       ".join(self.nodes)
+        return f"{{| w_nodes :=\n      [{body}];\n     w_default := {d} |}}"
+
+
+def _fixed(tree, cls, name):
+    f = pyq.find_def(tree, cls, name)
+    got = [ast.unparse(x) for x in pyq.strip_doc(f.body)]
+    if got != W_FIXED[(cls, name)]:
+        raise TranslateError(f"{cls + '.' if cls else ''}{name} changed: {' ; '.join(got)[:300]}")
+
+
+def wiring(tree) -> str:
+    for (cls, name) in W_FIXED:
+        _fixed(tree, cls, name)
+    cs = [n for n in tree.body if isinstance(n, ast.ClassDef) and n.name == "RecPipelineBuilder"][0]
+    defaults = [ast.unparse(x) for x in cs.body if isinstance(x, ast.AnnAssign) and x.value is not None]
+    if defaults != W_CLASS_DEFAULTS:
+        raise TranslateError(f"RecPipelineBuilder class-level defaults changed: {defaults}")
+    build = pyq.find_def(tree, "RecPipelineBuilder", "build")
+    if [a.arg for a in build.args.args] != ["self", "name"]:
+        raise TranslateError("RecPipelineBuilder.build parameters changed")
+    comps = {"UserTrainingHistoryLookup()": "CLookup", "self._selector": "CSelector", "self._scorer": "CScorer",
+             "self._fallback": "CFallbackModel", "FallbackScorer()": "CMerger", "self._ranker": "CRanker"}
+    out = {}
+    for pred in (False, True):
+        for fb in (False, True):
+            for tr in (False, True):
+                ex = WireExec({"self.is_predictor": pred, "self._fallback is not None": fb, "self._predict_transform": tr},
+                              {**comps, **({"self._predict_transform": "CTransform"} if tr else {})})
+                ex.run(pyq.strip_doc(build.body))
+                g = ex.gallina()                           # every branch is walked; only the transform-free ones are emitted
+                if not tr:
+                    out[(pred, fb)] = g
+    if out[(False, False)] != out[(False, True)]:
+        raise TranslateError("RecPipelineBuilder.build: a fallback changes the pipeline although no ratings are predicted")
+    b = lambda x: "true" if x else "false"               # noqa: E731
+    text = ("(* RecPipelineBuilder.build() without a prediction transform: flags = predicts_ratings() was called,\n"
+            "   a fallback was given.  topn_pipeline(predicts_ratings=False / \"raw\" / True) = (false, _) / (true, false) / (true, true\n"
+            "   with a BiasScorer). *)\n"
+            "Definition rec_wiring (is_predictor has_fallback : bool) : wiring :=\n  match is_predictor, has_fallback with\n")
+    for k in ((True, True), (True, False), (False, True), (False, False)):
+        text += f"  | {b(k[0])}, {b(k[1])} =>\n    {out[k]}\n"
+    text += "  end.\n\n"
+
+    pp = pyq.find_def(tree, None, "predict_pipeline")
+    if [a.arg for a in pp.args.args] != ["scorer"] or [a.arg for a in pp.args.kwonlyargs] != ["fallback", "n", "name"]:
+        raise TranslateError("predict_pipeline parameters changed")
+    pcomps = {"UserTrainingHistoryLookup()": "CLookup", "scorer": "CScorer", "FallbackScorer()": "CMerger"}
+    res = {}
+    for val in ("True", "False", "component"):
+        ex = WireExec({"fallback is True": val == "True", "fallback is False": val == "False"},
+                      {**pcomps, **({"fallback": "CFallbackModel"} if val == "component" else {})},
+                      assigns={"fallback = BiasScorer()": {"conds": {"fallback is True": False, "fallback is False": False},
+                                                           "comps": {"fallback": "CFallbackModel"}}})
+        ex.run(pyq.strip_doc(pp.body))
+        res[val] = ex.gallina()
+    if res["True"] != res["component"]:
+        raise TranslateError("predict_pipeline: fallback=True and fallback=<component> are wired differently")
+    text += ("(* predict_pipeline(scorer, fallback=...): fallback=True (a BiasScorer) or a component / fallback=False *)\n"
+             "Definition predict_wiring (has_fallback : bool) : wiring :=\n  match has_fallback with\n"
+             f"  | true =>\n    {res['True']}\n  | false =>\n    {res['False']}\n  end.\n")
+    return W_HEADER + text
+
+
 def translate(src) -> dict:
     topn = pyq.parse(src / "lenskit" / "basic" / "topn.py")
     stats = pyq.parse(src / "lenskit" / "stats.py")
     text = (HEADER.format(who="c03", srcs="src/lenskit/basic/topn.py (TopNRanker.__call__) and src/lenskit/stats.py (argtopn)")
             + topn_len(topn) + "\n" + argtopn_plan(stats))
-    return {"Gen/C03_len.v": text}
+    common_py = pyq.parse(src / "lenskit" / "pipeline" / "common.py")
+    return {"Gen/C03_len.v": text, "Gen/C03_wiring.v": wiring(common_py)}
